@@ -1936,6 +1936,14 @@ impl Connection {
         self.buffer.len()
     }
 
+    /// Reads the next frame off the socket, as the session's read loop does.
+    #[cfg(nlnetlabs_routecore_verif)]
+    pub async fn verif_read_frame(
+        &mut self
+    ) -> Result<Option<BgpMsg<Bytes>>, Error> {
+        self.read_frame().await
+    }
+
     /*
     async fn disconnect(&mut self) {
         //let _ = self.stream.shutdown().await;
